@@ -2135,6 +2135,43 @@ class Mklhs(PairScheme):
             for b in blocks:
                 R.free(b)
 
+    def offline_online(self, cname):
+        """cp_mklhs_off + cp_mklhs_onv must give the verdict of cp_mklhs_ver on the honest and on a spoiled signature"""
+        ctx, R = self.ctx, self.R
+        S, L = self.S, self.L
+        if not ctx.begin("cp_mklhs_onv|honest-and-spoiled", [cname, self.name]):
+            return
+        blocks = []
+
+        def keep(p):
+            blocks.append(p)
+            return p
+        try:
+            dp = keep(R.put(self.cs(self.data.val) + b"\0"))
+            idv = keep(R.ptr_array([keep(R.put(self.cs(c.val) + b"\0")) for c in self.ids]))
+            tgv = keep(R.ptr_array([keep(R.put(self.cs(c.val) + b"\0")) for c in self.tags]))
+            fv = keep(R.ptr_array([keep(R.dig_array(self.f[i])) for i in range(S)]))
+            fl = keep(R.ptr_array([L] * S))
+            hh, ft = keep(R.arr("g1", S)), keep(R.dig_array([0] * S))
+            res = R.call("cp_mklhs_off", hh, ft, idv, tgv, fv, fl, S)
+            if ctx.check(not res.caught and res.i == R.OK, ctx.cur_key + "|unexpected-error"):
+                ftv = [int.from_bytes(R.get(ft + i * R.DB, R.DB), "little") for i in range(S)]
+                ctx.check(ftv == [sum(self.f[i]) % (1 << R.DIG) for i in range(S)], "cp_mklhs_off|coefficients|value", {"ft": ftv})
+                r1 = R.call("cp_mklhs_onv", self.sig, self.m, self.mu, dp, idv, hh, ft, self.pk, S)
+                ctx.check(self.verdict(r1) == "acc", "cp_mklhs_onv|honest|rejected", {"lib": self.verdict(r1)})
+                sv = R.snap(self.sig, R.ep_sz)
+                R.call("g1_dbl", self.sig, self.sig)
+                R.call("g1_norm", self.sig, self.sig)
+                r2 = R.call("cp_mklhs_onv", self.sig, self.m, self.mu, dp, idv, hh, ft, self.pk, S)
+                R.restore(self.sig, sv)
+                ctx.check(self.verdict(r2) != "acc", "cp_mklhs_onv|sig:doubled|accepted")
+        except MonitorViolation as e:
+            ctx.fail(ctx.cur_key + "|" + e.kind, e.detail)
+        finally:
+            for b in blocks:
+                R.free(b)
+            ctx.end()
+
     def eqn(self):
         R = self.R
         S, L, n = self.S, self.L, R.n
@@ -2179,6 +2216,134 @@ class Mklhs(PairScheme):
             R.free(hl)
 
 
+class _Res(object):
+    """verdict carrier for verifiers that answer through an output element"""
+
+    def __init__(self, caught, i):
+        self.caught, self.i = caught, i
+
+
+class Mpss(PairScheme):
+    """two-party Pointcheval-Sanders signatures on shared messages (l = 0: the simple form, else the block form)"""
+    msg_kind = "bn"
+
+    def __init__(self, ctx, R, l=0, with_v=False):
+        PairScheme.__init__(self, ctx, R)
+        self.l, self.with_v = l, with_v
+        self.pre_ = "cp_mpsb" if l else "cp_mpss"
+        self.name = ("mpsb-%d%s" % (l, "-v" if with_v else "")) if l else "mpss"
+        self.sigfn, self.verfn = self.pre_ + "_sig", self.pre_ + "_ver"
+
+    def setup(self):
+        R, K = self.R, self.R.K
+        l = max(1, self.l)
+        self.base_setup()
+        ms, ps = K["sizeof_mt_st"], K["sizeof_pt_st"]
+        self.ms = ms
+        nb = R.bn(R.n)
+        self.tri = [R.S.vf_c05_mt_new(2) for _ in range(3)]
+        for t in self.tri:
+            R.call("mpc_mt_gen", t, nb)
+        self.pt = R.mem(2 * ps, 0)
+        for i in range(2):
+            R.call("ep_set_infty", self.pt + i * ps + K["off_pt_st_a"])
+            R.call("ep2_set_infty", self.pt + i * ps + K["off_pt_st_b"])
+            R.call("fp12_zero", self.pt + i * ps + K["off_pt_st_c"])
+        R.call("pc_map_tri", self.pt)
+        # GT images of the third triple (what the stock test builds with gt_exp_gen)
+        self.bt, self.ct = R.arr("gt", 2), R.arr("gt", 2)
+        gen = R.new("gt")
+        R.call("gt_get_gen", gen)
+        for i in range(2):
+            R.call("gt_exp", self.bt + i * R.gt_sz, gen, self.tri[2] + i * ms + K["off_mt_st_b"])
+            R.call("gt_exp", self.ct + i * R.gt_sz, gen, self.tri[2] + i * ms + K["off_mt_st_c"])
+            R.wr_sz(self.tri[2] + i * ms + K["off_mt_st_b1"], self.bt + i * R.gt_sz)
+            R.wr_sz(self.tri[2] + i * ms + K["off_mt_st_c1"], self.ct + i * R.gt_sz)
+        self.r = R.arr("bn", 2)
+        self.s = R.arr("bn", 2 * l)
+        self.h, self.x, self.y = R.new("g2"), R.arr("g2", 2), R.arr("g2", 2 * l)
+        self.a, self.b, self.m = R.new("g1"), R.arr("g1", 2), R.arr("bn", 2 * l)
+        self.e = R.new("gt")
+        if self.l:
+            ok = self.okres(R.call("cp_mpsb_gen", self.r, self.s, self.h, self.x, self.y, self.l)) and \
+                self.okres(R.call("cp_mpsb_bct", self.x, self.y, self.l))
+        else:
+            ok = self.okres(R.call("cp_mpss_gen", self.r, self.s, self.h, self.x, self.y)) and \
+                self.okres(R.call("cp_mpss_bct", self.x, self.y))
+        return ok
+
+    def sign(self, msg):
+        R, rng = self.R, self.rng
+        n = R.n
+        l = max(1, self.l)
+        for j in range(l):
+            mv = msg % n if j == 0 else rng.randrange(n)
+            m0 = rng.randrange(n)
+            R.bn_put(self.m + (2 * j) * R.bn_sz, m0)
+            R.bn_put(self.m + (2 * j + 1) * R.bn_sz, (mv - m0) % n)
+        if self.l:
+            return self.okres(R.call("cp_mpsb_sig", self.a, self.b, self.m, self.r, self.s, self.tri[0], self.tri[1], self.l))
+        return self.okres(R.call("cp_mpss_sig", self.a, self.b, self.m, self.r, self.s, self.tri[0], self.tri[1]))
+
+    def comps(self):
+        R = self.R
+        l = max(1, self.l)
+        cs = [Comp("a", "g1", "sig", self.a), Comp("b[0]", "g1", "sig", self.b), Comp("b[1]", "g1", "sig", self.b + R.ep_sz)]
+        for j in range(l):
+            cs.append(Comp("m[%d]" % (2 * j), "bn", "msg", self.m + (2 * j) * R.bn_sz))
+            cs.append(Comp("m[%d]" % (2 * j + 1), "bn", "msg", self.m + (2 * j + 1) * R.bn_sz))
+        cs += [Comp("h", "g2", "pk", self.h), Comp("x", "g2", "pk", self.x)]
+        if not self.with_v:
+            for j in range(l):
+                cs.append(Comp("y[%d]" % (2 * j), "g2", "pk", self.y + (2 * j) * R.g2_sz))
+        return cs
+
+    def ver(self):
+        R = self.R
+        R.call("fp12_zero", self.e)
+        if self.l:
+            res = R.call("cp_mpsb_ver", self.e, self.a, self.b, self.m, self.h, self.x, self.y, self.s if self.with_v else 0,
+                         self.tri[2], self.pt, self.l)
+        else:
+            res = R.call("cp_mpss_ver", self.e, self.a, self.b, self.m, self.h, self.x, self.y, self.tri[2], self.pt)
+        if res.caught:
+            return _Res(True, 0)
+        return _Res(False, 1 if R.call("fp12_cmp_dig", self.e, 1).i == R.EQ else 0)
+
+    def eqn(self):
+        R = self.R
+        n = R.n
+        l = max(1, self.l)
+        b0, b1 = self.b, self.b + R.ep_sz
+        for P in (self.a, b0, b1):
+            if not self.on1(P):
+                return False
+        if self.inf1(self.a):
+            return False
+        if not (self.valid2(self.h) and self.valid2(self.x)):
+            return False
+        mv = [R.bn_get(self.m + i * R.bn_sz)[0] for i in range(2 * l)]
+        if self.with_v:
+            sv = [R.bn_get(self.s + i * R.bn_sz)[0] for i in range(2 * l)]
+            t = sum((sv[2 * j] + sv[2 * j + 1]) * (mv[2 * j] + mv[2 * j + 1]) for j in range(l)) % n
+            self.g2_lin(self.t2, [(t, self.h), (1, self.x)])
+        elif not self.l:
+            if not self.valid2(self.y):
+                return False
+            self.g2_lin(self.t2, [((mv[0] + mv[1]) % n, self.y), (1, self.x)])
+        else:
+            terms = []
+            for i in range(2 * l):
+                Y = self.y + i * R.g2_sz
+                if not self.valid2(Y):
+                    return False
+                terms.append((mv[i] % n, Y))
+            self.g2_lin(self.t2, terms + [(1, self.x)])
+        R.call("g1_add", self.t1, b0, b1)
+        R.call("g1_norm", self.t1, self.t1)
+        return self.pair_eq(self.a, self.t2, self.t1, self.h)
+
+
 def run_pairing(ctx):
     R = PX(ctx.cfg)
     rng = ctx.rng
@@ -2189,7 +2354,8 @@ def run_pairing(ctx):
     for ci, nm in enumerate(names):
         R.set_curve(R.E[nm], pairing=True)
         schemes = [Bls(ctx, R), Bbs(ctx, R), Zss(ctx, R), Cls(ctx, R), Cli(ctx, R), Clb(ctx, R, 3), Pss(ctx, R), Psb(ctx, R, 3),
-                   Mklhs(ctx, R, 1, 1), Mklhs(ctx, R, 2, 2), Mklhs(ctx, R, 2, 3)]
+                   Mklhs(ctx, R, 1, 1), Mklhs(ctx, R, 2, 2), Mklhs(ctx, R, 2, 3),
+                   Mpss(ctx, R), Mpss(ctx, R, 3), Mpss(ctx, R, 2, True)]
         for si, sch in enumerate(schemes):
             di += 1
             sch.di = di * 1000
@@ -2236,6 +2402,8 @@ def run_pairing(ctx):
                 base = sch.rbytes(rng.choice([1, 5, 20])) if sch.msg_kind == "bytes" else rng.randrange(n)
                 if not sch.honest(nm, base, "mutation-base"):
                     continue
+                if isinstance(sch, Mklhs):
+                    sch.offline_online(nm)
                 full = ()
                 if sch.name in ("bls", "bbs", "zss", "pss", "cls") or not q:
                     full = set(c.name for c in sch.comps() if c.kind in ("bn", "bytes"))
